@@ -192,3 +192,25 @@ M('C06', 'reshaper-unmerge-slice-padded', RS, "      merged = update[tuple(slice
 M('C06', 'init-no-indivisible-check', TS, "        dim % options.block_size != 0\n        for dim in param.shape\n        if dim >= options.block_size", "        dim % options.block_size != 0\n        for dim in param.shape\n        if dim >= options.block_size and False")
 TW('C06', 'twin-merge-reversed-list', DS, "    for (i, indices) in reversed(self._splits):", "    for (i, indices) in reversed(list(self._splits)):")
 TW('C06', 'twin-large-lt-negated', TS, "  dims = [min(dim, options.block_size) for dim in param_shape]", "  dims = [dim if dim < options.block_size else options.block_size for dim in param_shape]")
+
+# ------------------------------------------------------------------ C07
+M(['C07', 'C13'], 'F2-unbatch-squeeze', DS, "    v_array = jnp.squeeze(v_array, axis=0)\n", "    v_array = jnp.squeeze(v_array)\n")
+M('C07', 'F5-avg-grad-masked', DS, "    new_avg_grad = state.avg_grad\n    if not _skip_preconditioning(param):", "    new_avg_grad = optax.MaskedNode()\n    if not _skip_preconditioning(param):")
+M('C07', 'F6-count-dtype', DS, "        count=[[], jnp.int32],\n", "        count=[[], jnp.float32],\n")
+M('C07', 'F6-quantized-decl-swapped', DS, "        m1_shape_and_dtype = [list(param.shape), qdtype]\n", "        m1_shape_and_dtype = [list(param.shape), param.dtype]\n")
+M('C07', 'F10-fd-without-reuse-accepted', DS, "  if frequent_directions and not reuse_preconditioner:\n    raise ValueError(\"frequent_directions=True requires \"\n                     \"reuse_preconditioner=True: the sketch is carried in the \"\n                     \"previous preconditioner\")\n", "")
+M('C07', 'F13-dead-store', DS, "    prev_stacked_padded_preconditioners = _maybe(lax.with_sharding_constraint)(\n        prev_stacked_padded_preconditioners, statistics_partition_spec\n    )", "    prev_stacked_padded_preconditioners = _maybe(lax.with_sharding_constraint)(\n        prev_padded_preconditioners, statistics_partition_spec\n    )")
+M('C07', 'F14-metrics-fd-flag-dropped', DS, "        metrics_for_states.append(\n            init_training_metrics(0, generate_training_metrics,\n                                  generate_fd_metrics))\n      else:\n        preconditioners_for_state = new_preconditioners_flat[idx:idx +\n                                                             num_statistics]\n        assert len(state.statistics) == len(preconditioners_for_state)\n        preconditioners_for_states.append(preconditioners_for_state)\n\n        if generate_training_metrics:\n          # pylint:disable=cell-var-from-loop Used immediately.\n          metrics_for_state = jax.tree.map(\n              lambda x: jnp.stack(x[idx:idx + num_statistics]),\n              metrics_flat,\n              is_leaf=lambda x: isinstance(x, list))",
+  "        metrics_for_states.append(\n            init_training_metrics(0, generate_training_metrics))\n      else:\n        preconditioners_for_state = new_preconditioners_flat[idx:idx +\n                                                             num_statistics]\n        assert len(state.statistics) == len(preconditioners_for_state)\n        preconditioners_for_states.append(preconditioners_for_state)\n\n        if generate_training_metrics:\n          # pylint:disable=cell-var-from-loop Used immediately.\n          metrics_for_state = jax.tree.map(\n              lambda x: jnp.stack(x[idx:idx + num_statistics]),\n              metrics_flat,\n              is_leaf=lambda x: isinstance(x, list))")
+M('C07', 'F16-fd-metrics-without-training-metrics', DS, "  generate_fd_metrics = (\n      generate_fd_metrics and frequent_directions and generate_training_metrics)", "  generate_fd_metrics = generate_fd_metrics and frequent_directions")
+M('C07', 'quantized-rewrap-shape-tuple', DS, "              QuantizedValue(qv, qd, qb, qv.dtype, True, list(qv.shape)))", "              QuantizedValue(qv, qd, qb, qv.dtype, True, qv.shape))")
+M('C07', 'quantized-rewrap-no-diagonal-flag', DS, "              QuantizedValue(qv, qd, qb, qv.dtype, True, list(qv.shape)))", "              QuantizedValue(qv, qd, qb, qv.dtype, False, list(qv.shape)))")
+M('C07', 'sharded-count-skipped-stats', DS, "      index_start = num_statistics\n      if not _skip_preconditioning(param):\n        sizes = [s[0] for s in shapes]\n        shapes = preconditioner.shapes_for_preconditioners()\n        num_statistics += len(shapes)\n\n      qdtype = quantized_dtype_for_momentum_buffers(param)\n      m1_shape_and_dtype",
+  "      index_start = num_statistics\n      if not _skip_preconditioning(param):\n        sizes = [s[0] for s in shapes]\n      num_statistics += len(shapes)\n\n      qdtype = quantized_dtype_for_momentum_buffers(param)\n      m1_shape_and_dtype")
+M('C07', 'sharded-max-size-guard', DS, "      param_clone = jnp.zeros(param.shape, dtype=param.dtype)\n      preconditioner = preconditioner_from_params(param_clone)\n      if not _skip_preconditioning(param):\n        shapes = preconditioner.shapes_for_preconditioners()\n        sizes = [s[0] for s in shapes]\n        max_size = max(max(sizes), max_size)\n    return max_size",
+  "      param_clone = jnp.zeros(param.shape, dtype=param.dtype)\n      preconditioner = preconditioner_from_params(param_clone)\n      shapes = preconditioner.shapes_for_preconditioners()\n      sizes = [s[0] for s in shapes]\n      if sizes:\n        max_size = max(max(sizes), max_size)\n    return max_size")
+M('C07', 'sharded-pspec-metrics-flag', DS, "              init_training_metrics_pspec(\n                  generate_training_metrics,\n                  generate_fd_metrics,\n              ),", "              init_training_metrics_pspec(\n                  generate_training_metrics,\n              ),")
+M('C07', 'sketchy-init-ekfac-slot', SK, "              inv_prev_tail=jnp.zeros(tuple()) if ekfac else optax.MaskedNode(),\n          )\n      )\n    return _TensorState(axes)", "              inv_prev_tail=jnp.zeros(tuple()) if add_ggt else optax.MaskedNode(),\n          )\n      )\n    return _TensorState(axes)")
+M('C07', 'sm3-momentum-unquantized', SM3, "        ParameterStats(diagonal_stats, _quantize_momentum(momentum)),", "        ParameterStats(diagonal_stats, momentum),")
+M('C07', 'new-unbound-local', TS, "  p = len(meta.param_shape) * 2\n\n  with jax.named_scope(\"PthInvRoot\"):", "  if meta.large_axes:\n    p = len(meta.param_shape) * 2\n\n  with jax.named_scope(\"PthInvRoot\"):")
+TW('C07', 'twin-init-helper-inline', DS, "          init_avg_grad(param, frequent_directions and average_grad),\n          init_training_metrics(\n              len(statistics),", "          (jnp.zeros_like(param) if (frequent_directions and average_grad) else optax.MaskedNode()),\n          init_training_metrics(\n              len(statistics),")
